@@ -34,7 +34,7 @@ def make_doc(accessor, tag):
     return top.dumps()
 
 
-def resolve(sym, accessor, trailing_slash, locs, bad, root_name="root"):
+def resolve(sym, accessor, trailing_slash, locs, bad, root_name="root", remote=False):
     entries = {"": None}
     tag = 0
     names = FILES[accessor]
@@ -51,15 +51,15 @@ def resolve(sym, accessor, trailing_slash, locs, bad, root_name="root"):
                 text = ["{{ this is not json", text.replace("productmd." + {"info": "composeinfo", "images": "images", "rpms": "rpms", "modules": "modules"}[kind],
                                                             "productmd.other")][bad[2]]
             entries[os.path.join(md, name)] = text
-    root, bits = sym.symbolic_fs(entries, root_name)          # the opened directory's own name must not matter
+    root, bits = sym.symbolic_fs(entries, root_name, remote)          # the opened directory's own name must not matter
     path = root + "/" if trailing_slash else root
     c = productmd.compose.Compose(path)
     sym.cover("opened")
     # ---- documented precedence for the location
     if bits[os.path.join("compose", "metadata", "composeinfo.json")] if "compose" in locs else False:
         allowed = [os.path.join(path, "compose")]
-    elif not bits[""]:
-        allowed = [path]
+    elif remote or not bits[""]:
+        allowed = [path]          # the legacy scan needs a directory listing: local paths only (documented)
     else:
         cands = []
         for loc in locs:
@@ -115,6 +115,60 @@ def resolve(sym, accessor, trailing_slash, locs, bad, root_name="root"):
     sym.check("right-type", isinstance(obj, CLASSES[accessor]))
     again = getattr(c, accessor)
     sym.check("loaded-once-then-reused", again is obj)
+
+
+def resolve_after_change(sym, accessor, remote):
+    """what a Compose object resolves depends on what is stored when it is opened and read - not on what an earlier object in the
+    same process saw at the same location"""
+    entries = {"": None}
+    tag = 0
+    for loc in ("", "compose"):
+        if loc:
+            entries[loc] = None
+        md = os.path.join(loc, "metadata")
+        entries[md] = None
+        for name in sorted(set(["composeinfo.json"] + FILES[accessor])):
+            tag += 1
+            entries[os.path.join(md, name)] = make_doc("info" if name == "composeinfo.json" else accessor, tag)
+    root, bits = sym.symbolic_fs(entries, "root", remote)
+    first = productmd.compose.Compose(root)
+    try:
+        getattr(first, accessor)
+    except RuntimeError:
+        pass
+    sym.cover("opened")
+    bits = sym.fs_change()          # files appear and disappear (e.g. a compose that is still being written)
+    c = productmd.compose.Compose(root)
+    if bits[os.path.join("compose", "metadata", "composeinfo.json")]:
+        base = os.path.join(root, "compose")
+    elif remote or not bits[""]:
+        base = root
+    else:
+        base = None          # local legacy scan: any sub-directory with metadata/ (covered by resolve)
+    if base is not None:
+        sym.check("location-follows-what-is-stored-now", c.compose_path == base)
+    base = c.compose_path
+    chosen = None
+    for name in FILES[accessor]:
+        rel = os.path.normpath(os.path.relpath(os.path.join(base, "metadata", name), root)) if not remote else os.path.join(base[len(root):].strip("/"), "metadata", name)
+        if rel in bits and bits[rel]:
+            chosen = rel
+            break
+    try:
+        obj = getattr(c, accessor)
+        error = None
+    except RuntimeError as e:
+        obj = None
+        error = e
+    sym.cover("accessed")
+    if chosen is None:
+        sym.check("missing-now-is-RuntimeError", error is not None)
+        return
+    sym.check("present-now-is-loaded", error is None)
+    if error is None:
+        direct = CLASSES[accessor]()
+        direct.loads(entries[chosen])
+        sym.check("equals-direct-load-of-the-file-stored-now", obj.dumps() == direct.dumps())
 
 
 def expect_for(sym, c, accessor, bits, entries, root, bad_rel):
@@ -186,6 +240,15 @@ def jobs(tier, seed):
             if big or (ri + li + seed) % 2 == 0 or root_name == "compose":
                 out.append({"harness": "resolve", "params": {"accessor": list(FILES)[(ri + li) % 4], "trailing_slash": bool((ri + li) % 2), "locs": locs, "bad": None,
                                                             "root_name": root_name}})
+    # remote locations (urlopen): the compose/ layout and the direct layout; no legacy scan over HTTP
+    for ai, accessor in enumerate(FILES):
+        out.append({"harness": "resolve", "params": {"accessor": accessor, "trailing_slash": bool(ai % 2), "locs": ["", "compose"], "bad": None, "remote": True}})
+    out.append({"harness": "resolve", "params": {"accessor": "images", "trailing_slash": False, "locs": ["", "compose"], "bad": ["compose", "images.json", 0], "remote": True}})
+    # the stored files change between two objects opened in one process
+    for ai, accessor in enumerate(FILES):
+        for remote in (False, True):
+            if big or (ai + remote + seed) % 2 == 0 or accessor == "images":
+                out.append({"harness": "resolve_after_change", "params": {"accessor": accessor, "remote": remote}})
     for first, second in (("images", "rpms"), ("rpms", "images"), ("images", "modules"), ("rpms", "info"), ("modules", "rpms")):
         for loc in ("", "compose"):
             out.append({"harness": "resolve_pair", "params": {"first": first, "second": second, "loc": loc}})
@@ -195,7 +258,7 @@ def jobs(tier, seed):
 
 
 META = {
-    "expected_covers": {"resolve": ["opened", "accessed"], "resolve_pair": ["opened", "accessed"]},
+    "expected_covers": {"resolve_after_change": ["opened", "accessed"], "resolve": ["opened", "accessed"], "resolve_pair": ["opened", "accessed"]},
     "assumptions": [
         "symbolic file system (psx/stubs.py SymFS): a finite universe of candidate paths (the compose directory, its 'compose' and legacy subdirectories, their "
         "metadata directories and every current/legacy file name of the accessor), one existence bit per path constrained only by 'a path exists only if its parent does'; "
@@ -203,6 +266,8 @@ META = {
         "the opened directory's own name is 'root' or one of 'compose', 'metadata', '1.0', 'compose.old' (names the prober itself looks for)",
         "files hold distinct concrete valid documents written by the real writers (or an undecodable / foreign-type one where stated)",
         "where the property is silent (a direct metadata/ next to a legacy subdirectory, several legacy subdirectories) any candidate location is accepted",
-        "HTTP(S)/FTP locations are outside the claim",
+        "remote locations: urlopen is answered from the same symbolic file system (200 with the content if the path exists, 404 otherwise; contract in psx/stubs.py); "
+        "natively the tree is served by http.server on the loopback interface; FTP and TLS specifics are outside the claim",
+        "resolve_after_change: a second arbitrary layout over the same candidate paths replaces the first between two Compose objects of one process",
     ],
 }
